@@ -439,6 +439,14 @@ def ite_value(cond, a, b_thunk):
     ka, kb = kind_of(a), kind_of(b)
     if isinstance(a, DynV) or isinstance(b, DynV) or (ka != kb and {ka, kb} <= {"none", "bool", "int", "real", "str"}):
         return DynV(z3.If(cond, dyn_from(a), dyn_from(b)))
+    if isinstance(a, Arr) and isinstance(b, Arr) and a.ndim == b.ndim and a.dtype == b.dtype:
+        def pick(x, y):
+            if isinstance(x, int) and isinstance(y, int) and x == y:
+                return x
+            return z3.If(cond, to_z3(x, "int"), to_z3(y, "int"))
+
+        shape = tuple(pick(x, y) for x, y in zip(a.shape, b.shape))
+        return Arr(shape, lambda *idx, _ea=a.elem, _eb=b.elem: z3.If(cond, _ea(*idx), _eb(*idx)), a.dtype, f"ite({a.tag},{b.tag})")
     if isinstance(a, WeakRef) and isinstance(b, WeakRef):
         return WeakRef(ite_value(cond, a.target, lambda: b.target), z3.If(cond, zbool(a.alive) if not isinstance(a.alive, bool) else z3.BoolVal(a.alive), zbool(b.alive) if not isinstance(b.alive, bool) else z3.BoolVal(b.alive)))
     if isinstance(a, tuple) and isinstance(b, tuple) and len(a) == len(b):
